@@ -18,22 +18,26 @@ Proof.
   intros H. unfold request. destruct cl; try congruence; cbn; repeat split; auto.
 Qed.
 
-(* a cache hit runs no compiler and hands the client exactly what the direct run would have produced *)
+(* a cache hit runs no compiler and hands the client exactly what the direct run would have produced.
+   [calm]: no panic among the fault values / in the oracle - the hypothesis Proofs/ReqSM.execute_transparent needs since
+   panics became first-class faults there (a panicking task is answered with "encountered fatal error", which
+   C09_internal_fault_reported covers). *)
 Lemma hit_replays_stored w st t f cc :
-  consistent w -> Inv w st -> sane (w t) -> f_outdir_ok f = true ->
+  consistent w -> Inv w st -> sane (w t) -> f_outdir_ok f = true -> calm f (w t) ->
   r_outcome (snd (execute f cc (w t) st)) = Some OHit ->
   r_cc_runs (snd (execute f cc (w t) st)) = 0 /\
   exists s so se, r_client (snd (execute f cc (w t) st)) = CFinished s so se /\
                   (s, so, se, r_outputs (snd (execute f cc (w t) st))) = direct (w t).
 Proof.
-  intros HC HI HS HO Hhit.
-  pose proof (execute_transparent w st t f cc HC HI HS HO) as HT.
+  intros HC HI HS HO HCalm Hhit.
+  pose proof (execute_transparent w st t f cc HC HI HS HO HCalm) as HT.
   revert Hhit HT. unfold execute.
   destruct (generate_hash_key f cc (w t) st) as [[st1 res] pp].
-  destruct res as [|k]; cbn; [discriminate|].
+  destruct res as [|k|]; cbn; try discriminate.
   destruct (cache_lookup f cc k st1) as [so se outs|mt|]; cbn; try discriminate.
   - intros _ HT. split; [reflexivity|]. unfold transparent in HT. cbn in HT. eauto.
   - unfold compile_and_store.
+    destruct (o_c_panics (w t)); cbn; [discriminate|].
     destruct (negb (o_c_status (w t) =? 0)); cbn; [discriminate|].
     destruct mt; cbn; try discriminate;
       destruct (negb (o_cacheable (w t))); cbn; try discriminate;
